@@ -242,6 +242,12 @@ func genPrec(stream string, seed uint64, nTrees int, triples bool) []GenCase {
 			add("return ((!Flag) ? c : (("+st+")"+opText(o)+"b));", k+"-e2", "full", "ternary-else-start")
 		}
 	}
+	// the dot binds like an index: `h.k[0]` is `(h.k)[0]`, `h.k.j`, `-h.n`, `h.k[0] + 1`, `f(h.k)[1]`
+	for k, p := range [][2]string{{"h.k[0]", "((h.k)[0])"}, {"h.k[1] + 1", "(((h.k)[1]) + 1)"}, {"h.m.j", "((h.m).j)"}, {"h.m.j[0]", "(((h.m).j)[0])"}, {"-h.n", "(-(h.n))"},
+		{"h.n * 2", "((h.n) * 2)"}, {"2 * h.n", "(2 * (h.n))"}, {"h.k[0] == 7", "(((h.k)[0]) == 7)"}, {"!h.n", "(!(h.n))"}, {"h.n ** 2", "((h.n) ** 2)"}} {
+		add("return "+p[0]+";", fmt.Sprintf("dot-%d", k), "plain", "dot-index")
+		add("return "+p[1]+";", fmt.Sprintf("dot-%d", k), "full", "dot-index")
+	}
 	for _, s := range []string{"x++;", "x--;", "x = 1; x++; return x;", "a += b * c; return a;", "a -= b - c; return a;", "a *= b + c; return a;", "a /= c + 1; return a;",
 		"return a ? b ? 1 : 2 : 3;", "return a ? 1 : b ? 2 : 3;", "return (a ? 1 : 2) ? 3 : 4;", "return a ? (b ? 1 : 2) : 3;", "return f(a ? 1 : 2);",
 		"return a.b;", "return a.b.c;", "return h.k + 1;", "return -a ** 2;", "return 2 ** 3 ** 2;", "return 2 ** -1;", "return a - -b;", "return !a == b;", "return !(a == b);",
@@ -258,6 +264,8 @@ func genPrec(stream string, seed uint64, nTrees int, triples bool) []GenCase {
 	}
 	for i := range out {
 		out[i].Case.AddVar("xs", VArr(VInt(4), VInt(9)))
+		out[i].Case.AddVar("h", Val{Kind: "hash", Keys: []Val{VStr("k"), VStr("m"), VStr("n")},
+			Vals: []Val{VArr(VInt(7), VInt(8)), {Kind: "hash", Keys: []Val{VStr("j")}, Vals: []Val{VArr(VInt(5))}}, VInt(3)}})
 	}
 	return out
 }
